@@ -245,6 +245,26 @@ def ladder_stratum():
             runs.append({"variant": variant, "nsys": 1, "origin": ["setup", idx], "solves": [
                 {"mode": m, "reset": 0, "mxsteps": 500, "dt": 1e9, "y0c": [0.0, 0.25, 1.5, 7.0],
                  "outcomes": [], "reinit_fail": [], "setup": [idx, -20]} for m in (0, 1)]})
+    # ladder tree: every combination of (flag, position, progress) choices for up to three
+    # consecutive failing levels, then success - 16 + 256 + 4096 scripts per variant
+    opts = [(fl, pos, fr) for fl in (-1, -4, -6, -5) for pos in ("first", "last") for fr in (0.0, 0.5)]
+    import itertools
+
+    for variant in ("cvode_dense", "cvode_sparse"):
+        batch = []
+        for depth in (1, 2, 3):
+            for combo in itertools.product(opts, repeat=depth):
+                outcomes = []
+                for level, (fl, pos, fr) in enumerate(combo):
+                    g = 0 if pos == "first" else NSUB[level] - 1
+                    outcomes += [[0, 1.0]] * g + [[fl, fr]]
+                batch.append({"mode": 0, "reset": 0, "mxsteps": 500, "dt": 7.5e11, "y0c": [0.0, 0.25, 1.5, 7.0],
+                              "outcomes": outcomes, "reinit_fail": [], "setup": [-1, 0]})
+                if len(batch) == 4:
+                    runs.append({"variant": variant, "nsys": 1, "solves": batch, "origin": ["tree", depth]})
+                    batch = []
+        if batch:
+            runs.append({"variant": variant, "nsys": 1, "solves": batch, "origin": ["tree", 3]})
     # odeint: budget boundary for every small budget, both entry points
     for mx in (1, 2, 3, 5, 20, 100, 500):
         for n in sorted({1, max(1, mx - 1), mx, mx + 1, mx + 2, 2 * mx, 10 * mx + 1}):
